@@ -129,6 +129,7 @@ impl Family for C11Family {
         let mut c = ceremony(Backend::Ref, wrap, store);
         c.rng_seed = r.next_u64();
         c.cell = Some(cell as u32);
+        let cell_capability = c.store.capability;
         // one cell run in four: the store reported another capability when this authenticator was
         // first asked about itself; the cell's capability is what it reports from then on
         if r.chance(1, 4) {
@@ -150,6 +151,12 @@ impl Family for C11Family {
             s.up = true;
             OpKind::GetAssertion(s)
         };
+        // one cell run in six: after the registration the store reports another capability (what a record
+        // stores does not change with it)
+        if r.chance(1, 6) {
+            let later = *r.pick(&CAPS.iter().copied().filter(|k| *k != cell_capability).collect::<Vec<_>>());
+            actor.ops.push(plain_op(OpKind::SetCapability { capability: later, verification: actor.verification }));
+        }
         actor.ops.push(plain_op(auth_kind.clone()));
         // a second use of the same credential (the first one may have rewritten the record)
         actor.ops.push(plain_op(auth_kind));
@@ -178,7 +185,7 @@ impl Family for C11Family {
         let rec = run_and_measure(c, stats);
         let mut j = Judge::new("C11", scn, &rec);
         stats.cells_total = CELLS;
-        for p in ["cell_on_contended_store", "required_rk_refused_by_non_discoverable_store", "forced_discoverable_overrides_request", "cred_props_reported", "assertion_returned_user_handle", "assertion_without_user_handle", "capability_changed_before_registration", "cred_props_with_prf_on_hmac_authenticator", "registered_on_authenticator_without_user_verification", "options_through_json", "unknown_resident_key_string", "options_json_round_trip_refused"] {
+        for p in ["cell_on_contended_store", "required_rk_refused_by_non_discoverable_store", "forced_discoverable_overrides_request", "cred_props_reported", "assertion_returned_user_handle", "assertion_without_user_handle", "capability_changed_before_registration", "cred_props_with_prf_on_hmac_authenticator", "registered_on_authenticator_without_user_verification", "options_through_json", "unknown_resident_key_string", "options_json_round_trip_refused", "capability_changed_after_registration"] {
             stats.declare_probe(p);
         }
         if rec.panic.is_some() || rec.outcome != Outcome2::Done {
@@ -282,7 +289,11 @@ impl Family for C11Family {
                     }
                 }
                 // the assertion returns a user handle exactly when the credential stores one
-                for a in [rec.op(0, reg_idx + 1), rec.op(0, reg_idx + 2)].into_iter().flatten() {
+                let later_ops: Vec<usize> = (reg_idx + 1..c.actors[0].ops.len()).filter(|i| matches!(c.actors[0].ops[*i].kind, OpKind::Authenticate(_) | OpKind::GetAssertion(_))).collect();
+                if c.actors[0].ops[reg_idx + 1..].iter().any(|o| matches!(o.kind, OpKind::SetCapability { .. })) {
+                    stats.probe("capability_changed_after_registration");
+                }
+                for a in later_ops.into_iter().filter_map(|i| rec.op(0, i)) {
                     let handle = match &a.result {
                         OpResult::Auth(Ok(r)) => Some(r.user_handle.clone()),
                         OpResult::Ga(Ok(r)) => Some(r.user_id.clone()),
